@@ -781,6 +781,27 @@ pub fn meta(id: &str, tier: &str) -> Option<Meta> {
             pin_workers: false,
         });
     }
+    #[cfg(feature = "memchk")]
+    if id == "C23" {
+        let b = c23_borrowed(tier);
+        return Some(Meta {
+            engine: "E1 histx under the monitoring allocator (quarantine, poison, red zones, epoch accounting) with revalidation of retained references",
+            config: "mem",
+            rule: "states = histories (each with every panic injection where stated), executions = runs of a history on the real code (two per case: the second one in its own allocation epoch for the leak check), transitions = cases, checks = operations after which the allocator monitor was polled + leak checks; non-trivial = every history (all allocate, free and retain references).",
+            bounds: json!({
+                "borrowed_history_sets": b.iter().map(|x| json!({"from": x.spec.id, "programs": x.spec.programs.len(), "depth": x.spec.depth, "panic_injection_at_every_callback_point": x.faults})).collect::<Vec<_>>(),
+                "time_cap_per_worker_s": c23_cap(tier),
+            }),
+            assumptions: vec![
+                "reads through dangling pointers are detected through their effect: freed memory is poisoned and quarantined for the whole history, values carry a canary pattern, retained references are re-read before every mutable borrow; an out-of-bounds or dangling read that salsa makes and whose result it discards is not observable this way".into(),
+                "writes out of bounds are detected within 16 bytes after and 24 bytes before a block".into(),
+                "single-threaded histories only".into(),
+            ],
+            extra: json!({}),
+            max_workers: 64,
+            pin_workers: false,
+        });
+    }
     #[cfg(all(feature = "hooks", not(feature = "conc")))]
     if id == "C25" {
         return Some(Meta {
@@ -827,7 +848,40 @@ pub fn meta(id: &str, tier: &str) -> Option<Meta> {
     None
 }
 
+#[cfg(feature = "memchk")]
+fn c23_cap(tier: &str) -> u64 {
+    if tier == "quick" { 45 } else { 2400 }
+}
+
+/// History sets borrowed by C23: the quick sets of the sequential properties whose histories
+/// evict, delete structs, reclaim interned values, iterate cycles, cancel and panic.
+#[cfg(feature = "memchk")]
+fn c23_borrowed(tier: &str) -> Vec<crate::e1mem::Borrowed> {
+    let quick = tier == "quick";
+    let mut v = Vec::new();
+    for (id, faults) in [("C01", false), ("C05", false), ("C06", false), ("C07", false), ("C08", false), ("C10", false), ("C11", false), ("C12", false), ("C13", false), ("C15", false), ("C22", true)] {
+        if let Some(mut spec) = e1_spec(id, "quick") {
+            if quick {
+                spec.depth = spec.depth.saturating_sub(1).max(2);
+                // every third program of the larger sets
+                if spec.programs.len() > 12 {
+                    spec.programs = spec.programs.into_iter().enumerate().filter(|(i, _)| i % 3 == 0).map(|(_, p)| p).collect();
+                }
+                if faults {
+                    spec.depth = 2;
+                }
+            }
+            v.push(crate::e1mem::Borrowed { spec, faults });
+        }
+    }
+    v
+}
+
 pub fn worker(id: &str, tier: &str, w: usize, n: usize) -> WorkerOut {
+    #[cfg(feature = "memchk")]
+    if id == "C23" {
+        return crate::e1mem::run_worker(&c23_borrowed(tier), w, n, c23_cap(tier));
+    }
     if let Some(s) = e1_spec(id, tier) {
         if id == "C22" {
             return e1::run_fault_worker(&s, w, n);
@@ -884,11 +938,38 @@ fn rerun_fault(v: &Viol) -> Option<Option<(String, String, usize)>> {
     Some(e1::run_fault_case(&prog, &case.history, inject, &mut st).0)
 }
 
+/// Run one C23 case in a child process (it may crash). Some(description) = it fails.
+#[cfg(feature = "memchk")]
+fn run_case_child(v: &Viol) -> Option<String> {
+    let dir = crate::evid::verif_root().join("target");
+    let p = dir.join(format!("c23-case-{}.json", std::process::id()));
+    std::fs::write(&p, serde_json::to_string(v).unwrap()).ok();
+    let exe = std::env::current_exe().expect("current exe");
+    let o = std::process::Command::new(exe).args(["case", "C23"]).arg(&p).output();
+    let _ = std::fs::remove_file(&p);
+    let o = o.ok()?;
+    match o.status.code() {
+        Some(0) => None,
+        Some(1) => {
+            let t = String::from_utf8_lossy(&o.stdout);
+            // the oracle name only: addresses in the message differ between runs
+            Some(t.lines().find(|l| l.starts_with("CASE-VIOLATION")).map(|l| l.split(':').next().unwrap_or(l).to_string()).unwrap_or_else(|| "violation".into()))
+        }
+        Some(c) => Some(format!("the process running the case exited with status {c}")),
+        None => Some(format!("the process running the case died: {:?}", o.status)),
+    }
+}
+
 pub fn confirm(id: &str, v: &Viol) -> Confirm {
     match v.case.get("engine").and_then(|e| e.as_str()) {
         #[cfg(all(feature = "hooks", not(feature = "conc")))]
         Some("e4") => match (crate::e4::replay(&v.case), crate::e4::replay(&v.case)) {
             (Some(Some(_)), Some(Some(_))) => Confirm::Reproduced,
+            _ => Confirm::NotReproduced,
+        },
+        #[cfg(feature = "memchk")]
+        Some("e1-mem") => match (run_case_child(v), run_case_child(v)) {
+            (Some(a), Some(b)) if a == b => Confirm::Reproduced,
             _ => Confirm::NotReproduced,
         },
         Some("e1-fault") => match (rerun_fault(v), rerun_fault(v)) {
@@ -937,6 +1018,18 @@ pub fn replay(id: &str, path: &str) -> i32 {
                 0
             }
             None => 2,
+        },
+        #[cfg(feature = "memchk")]
+        Some("e1-mem") => match run_case_child(&v) {
+            Some(msg) => {
+                println!("VIOLATION property={id} replay={path}");
+                println!("  {msg}");
+                1
+            }
+            None => {
+                println!("replay of {path}: property {id} holds on this case");
+                0
+            }
         },
         Some("e1-fault") => match rerun_fault(&v) {
             Some(Some((oracle, msg, step))) => {
